@@ -90,7 +90,11 @@ CHECKS.update({
                   'agree with encoding/json on the same inputs. Go VALUES (nil, bool, int, float, strings of any bytes, slices, []byte, maps with '
                   'string/int keys, pointers, struct types with tag names, omitempty, string, "-", unexported and embedded fields built with '
                   'reflect.StructOf) are covered by GoEnc.tla: Marshal/MarshalEscaped must write exactly GoMarshal(v, esc). Decoding INTO typed '
-                  'values and the token stream API are only covered differentially (stated in evidence).',
+                  'values is covered by GoDec.tla (decode.go\'s value/array/object/literalStore as operators: null handling, remembered type '
+                  'errors vs errors that stop decoding, exact-then-folded field matching, tags, ",string", embedded structs, allocated pointers, '
+                  'maps merged into, base64, int64 range, json.Number under UseNumber): Unmarshal, Decoder.Decode and Decoder.UseNumber+Decode '
+                  'must store exactly the value GoDec says and report an error exactly when it says. Only the token stream API is covered '
+                  'differentially alone (stated in evidence).',
              note=TB + '; the differential part trusts the standard library of the installed Go release'),
 })
 
